@@ -194,7 +194,14 @@ def check_curve(case, ctx):
             # the operation is applied to a deep copy; the curve it was copied from keeps its degree, net and views
             import copy
             twin, crv = crv, copy.deepcopy(crv)
+        crv.sample_size = 5
+        pts_before = [list(q) for q in crv.evalpts]
         operations.degree_operations(crv, [t])
+        crv.sample_size = 5
+        pts_after = [list(q) for q in crv.evalpts]
+        bigc = max(abs(c) for q in pts_before for c in q) if pts_before else 1.0
+        ctx.check(len(pts_before) == 5 and len(pts_after) == 5 and all(all(abs(x - y) <= 1e-9 * max(bigc, 1e-300) for x, y in zip(a_, b_)) for a_, b_ in zip(pts_before, pts_after)),
+                  "curve-sampled-points-differ", "the 5 sampled points of the curve before and after degree_operations(+%d) differ: %r vs %r" % (t, pts_before[:2] + pts_before[-1:], pts_after[:2] + pts_after[-1:]))
         if twin is not None:
             tp = [list(q) for q in twin.ctrlpts]
             ok_t = twin.degree == p and len(tp) == p + 1 and (not homog or len(list(twin.weights)) == p + 1) and \
